@@ -409,6 +409,9 @@ func (p *parser) parseTypeName() (string, error) {
 
 func (p *parser) parsePostfix() (Expr, error) {
 	var x Expr
+	if t0 := p.peek(); t0.k == "ident" && (t0.s == "forall" || t0.s == "exists") {
+		return p.parseExpr()
+	}
 	t := p.next()
 	switch t.k {
 	case "int":
